@@ -688,7 +688,7 @@ pub fn record_extract(cj: &Value, tr: &mut Tr, thorough: bool) {
         }
     }
     // the other option combinations and entry points of the public API (audit item 12): all of them when thorough, a
-    // rotating selection on alternating backends otherwise.  `flow` / `wg_none` after clifford / full simplification are
+    // rotating selection otherwise, on alternating backends.  `flow` / `wg_none` after clifford / full simplification are
     // NOT promised to succeed (no causal flow): Trace_Extract records them without judging.
     let mut more: Vec<(&str, &str)> = vec![];
     if thorough {
@@ -706,10 +706,9 @@ pub fn record_extract(cj: &Value, tr: &mut Tr, thorough: bool) {
         more.push((["clifford", "full"][idx % 2], ["flow", "flow_perm", "wg_none"][(idx / 2) % 3]));
     }
     for (i, (s, m)) in more.into_iter().enumerate() {
-        if thorough || (idx + i) % 2 == 0 {
+        if (idx + i) % 2 == 0 {
             tr.emit(extract_one::<quizx::vec_graph::Graph>(&c, s, m, "vec"));
-        }
-        if thorough || (idx + i) % 2 == 1 {
+        } else {
             tr.emit(extract_one::<quizx::hash_graph::Graph>(&c, s, m, "hash"));
         }
     }
